@@ -1,32 +1,57 @@
-(* Python's `<=` on ASCII str and sorted() on lists of str (insertion sort; stable).  Definitions only. *)
+(* Python's `<` on ASCII str (lexicographic by code point), `sorted(...)` as insertion sort, set-like helpers
+   on lists of str.  Definitions only; facts are in Proofs/GraphFacts.v. *)
 From Verif Require Import Base.Prelude.
 
-Fixpoint str_leb (a b : str) : bool :=
+Fixpoint str_ltb (a b : str) : bool :=
   match a, b with
-  | [], _ => true
+  | [], [] => false
+  | [], _ :: _ => true
   | _ :: _, [] => false
   | x :: a', y :: b' =>
-      let nx := nat_of_ascii x in
-      let ny := nat_of_ascii y in
-      if nx <? ny then true else if ny <? nx then false else str_leb a' b'
+      if nat_of_ascii x <? nat_of_ascii y then true
+      else if nat_of_ascii y <? nat_of_ascii x then false
+      else str_ltb a' b'
+  end.
+Definition str_leb (a b : str) : bool := negb (str_ltb b a).
+
+(* lexicographic order on tuples of str (Python tuple comparison) *)
+Fixpoint strs_ltb (a b : list str) : bool :=
+  match a, b with
+  | [], [] => false
+  | [], _ :: _ => true
+  | _ :: _, [] => false
+  | x :: a', y :: b' =>
+      if str_ltb x y then true else if str_ltb y x then false else strs_ltb a' b'
   end.
 
-Fixpoint insert_by {A} (le : A -> A -> bool) (x : A) (l : list A) : list A :=
-  match l with
-  | [] => [x]
-  | y :: t => if le x y then x :: l else y :: insert_by le x t
-  end.
+Section Sort.
+  Context {A : Type}.
+  Variable ltb : A -> A -> bool.
+  (* stable insertion: x goes before the first element that is strictly greater *)
+  Fixpoint insert (x : A) (l : list A) : list A :=
+    match l with
+    | [] => [x]
+    | y :: t => if ltb x y then x :: l else y :: insert x t
+    end.
+  Definition sort (l : list A) : list A := fold_left (fun acc x => insert x acc) l [].
+End Sort.
 
-Definition sort_by {A} (le : A -> A -> bool) (l : list A) : list A := fold_right (insert_by le) [] l.
+Definition sort_strs (l : list str) : list str := sort str_ltb l.
+Definition sort_by_key {B} (l : list (str * B)) : list (str * B) :=
+  sort (fun a b => str_ltb (fst a) (fst b)) l.
 
-Definition sort_str (l : list str) : list str := sort_by str_leb l.
-
-(* sorted, duplicate-free list of strings *)
-Fixpoint dedup_sorted (l : list str) : list str :=
+(* set(...) on a list: keep first occurrences *)
+Fixpoint dedup_aux (seen l : list str) : list str :=
   match l with
   | [] => []
-  | x :: t => match t with
-              | y :: _ => if str_eqb x y then dedup_sorted t else x :: dedup_sorted t
-              | [] => [x]
-              end
+  | x :: t => if mem_str x seen then dedup_aux seen t else x :: dedup_aux (x :: seen) t
   end.
+Definition dedup (l : list str) : list str := dedup_aux [] l.
+
+Definition subset_str (a b : list str) : bool := forallb (fun x => mem_str x b) a.
+Definition seteq_str (a b : list str) : bool := subset_str a b && subset_str b a.
+Fixpoint nodup_strb (l : list str) : bool :=
+  match l with [] => true | x :: t => negb (mem_str x t) && nodup_strb t end.
+Definition inter_str (a b : list str) : list str := filter (fun x => mem_str x b) a.
+Definition diff_str (a b : list str) : list str := filter (fun x => negb (mem_str x b)) a.
+Definition union_str (a b : list str) : list str := a ++ diff_str b a.
